@@ -1252,6 +1252,116 @@ func extractC05(c *Ctx) error {
 		c.P("Definition batched_queue_configurations : Z := %d. (* WithBatch(..) calls / Batched: keys outside x/consensus/keeper/consensus and tests *)", n)
 	}
 
+	// ---- what the chain hands out as bytes to sign: every `BytesToSign:` of the consensus module ----
+	{
+		var sites []string
+		for _, dir := range []string{"x/consensus/keeper", "x/consensus/keeper/consensus"} {
+			fs, err := c.ParseDir(dir)
+			if err != nil {
+				return err
+			}
+			for _, f := range fs {
+				if strings.Contains(filepath.Base(c.Fset.File(f.Pos()).Name()), "verif_hooks") {
+					continue
+				}
+				for _, d := range f.Decls {
+					fd, ok := d.(*ast.FuncDecl)
+					if !ok || fd.Body == nil {
+						continue
+					}
+					ast.Inspect(fd.Body, func(n ast.Node) bool {
+						kv, ok := n.(*ast.KeyValueExpr)
+						if !ok {
+							return true
+						}
+						id, ok := kv.Key.(*ast.Ident)
+						if !ok || id.Name != "BytesToSign" {
+							return true
+						}
+						// the value must be a local bound ONCE, by <the function's message parameter>.GetBytesToSign(<codec>)
+						v, ok := kv.Value.(*ast.Ident)
+						shape := "unknown:" + c05norm(c.Src(kv.Value))
+						if ok {
+							var defs []string
+							for _, st := range fd.Body.List {
+								if as, ok := st.(*ast.AssignStmt); ok && len(as.Lhs) >= 1 {
+									if l, ok := as.Lhs[0].(*ast.Ident); ok && l.Name == v.Name {
+										defs = append(defs, c05norm(c.Src(as)))
+									}
+								}
+							}
+							if len(defs) == 1 && regexp.MustCompile(`^`+v.Name+`,err:=msg\.GetBytesToSign\((k\.cdc|cdc)\)$`).MatchString(defs[0]) {
+								isParam := false
+								for _, pn := range c05params(fd) {
+									isParam = isParam || pn == "msg"
+								}
+								if isParam {
+									shape = "msg.GetBytesToSign"
+								}
+							} else {
+								shape = "unknown:" + strings.Join(defs, ";")
+							}
+						}
+						sites = append(sites, fmt.Sprintf("(%s, %s)", CoqStr(fd.Name.Name), CoqStr(shape)))
+						return true
+					})
+				}
+			}
+		}
+		sort.Strings(sites)
+		c.P("Definition bytes_to_sign_sites : list (string * string) := [%s]. (* every `BytesToSign:` in x/consensus/keeper(/consensus): function, how the value is computed *)", strings.Join(sites, "; "))
+		c.Info("bytes_to_sign_sites", strings.Join(sites, " "))
+		// the keeper's fields: a map / cache / pointer to mutable state at keeper level would outlive the store
+		kf, err := c.Parse("x/consensus/keeper/keeper.go")
+		if err != nil {
+			return err
+		}
+		var fields []string
+		for _, d := range kf.Decls {
+			gd, ok := d.(*ast.GenDecl)
+			if !ok {
+				continue
+			}
+			for _, sp := range gd.Specs {
+				ts, ok := sp.(*ast.TypeSpec)
+				if !ok || ts.Name.Name != "Keeper" {
+					continue
+				}
+				st, ok := ts.Type.(*ast.StructType)
+				if !ok {
+					return fmt.Errorf("consensus Keeper is not a struct")
+				}
+				for _, fl := range st.Fields.List {
+					for _, n := range fl.Names {
+						fields = append(fields, fmt.Sprintf("(%s, %s)", CoqStr(n.Name), CoqStr(c05norm(c.Src(fl.Type)))))
+					}
+					if len(fl.Names) == 0 {
+						fields = append(fields, fmt.Sprintf("(%s, %s)", CoqStr("<embedded>"), CoqStr(c05norm(c.Src(fl.Type)))))
+					}
+				}
+			}
+		}
+		c.P("Definition consensus_keeper_fields : list (string * string) := [%s].", strings.Join(fields, "; "))
+		// package-level variables of the keeper packages holding maps / sync primitives
+		nv := 0
+		for _, dir := range []string{"x/consensus/keeper", "x/consensus/keeper/consensus"} {
+			fs, _ := c.ParseDir(dir)
+			for _, f := range fs {
+				for _, d := range f.Decls {
+					gd, ok := d.(*ast.GenDecl)
+					if !ok || gd.Tok != token.VAR {
+						continue
+					}
+					src := c05norm(c.Src(gd))
+					if strings.Contains(src, "map[") || strings.Contains(src, "sync.") {
+						nv++
+					}
+				}
+			}
+		}
+		c.P("Definition consensus_package_level_maps : Z := %d. (* package-level vars with a map / sync type in x/consensus/keeper(/consensus) *)", nv)
+	}
+
 	if len(errs) > 0 {
 		sort.Strings(errs)
 		return fmt.Errorf("%s", strings.Join(errs, "\n"))
